@@ -292,11 +292,11 @@ def posPredicate : Pos := ⟨false, false⟩
 def posObject : Pos := ⟨true, true⟩
 
 /-- `captureSubjectOrGraphValue` / `capturePredicate` / `captureObject`: skip white space and
-    comments, then dispatch on the opener. `inComment` models `drainLine`. -/
+    comments, then dispatch on the opener. `inComment` models `drainLine` (a comment ends at LF or CR). -/
 def captureTerm (T : Tables) (urlOk : List Nat → Bool) (e : End) (pos : Pos) :
     Bool → List Nat → R (Term (List Nat))
   | _, [] => .err e.cls
-  | true, c :: rest => if c = 0x0a then captureTerm T urlOk e pos false rest
+  | true, c :: rest => if c = 0x0a ∨ c = 0x0d then captureTerm T urlOk e pos false rest
                        else captureTerm T urlOk e pos true rest
   | false, c :: rest =>
     if c = 0x3c then
@@ -320,7 +320,7 @@ def captureTerm (T : Tables) (urlOk : List Nat → Bool) (e : End) (pos : Pos) :
     `some rest` in `.ok` = graph label follows at `rest` (nothing consumed of it); `none` = dot seen. -/
 def afterObject (T : Tables) (e : End) : Bool → List Nat → R (Option (List Nat))
   | _, [] => .err e.cls
-  | true, c :: rest => if c = 0x0a then afterObject T e false rest else afterObject T e true rest
+  | true, c :: rest => if c = 0x0a ∨ c = 0x0d then afterObject T e false rest else afterObject T e true rest
   | false, c :: rest =>
     if c = 0x2e then .ok none rest
     else if c = 0x23 then afterObject T e true rest
@@ -330,7 +330,7 @@ def afterObject (T : Tables) (e : End) : Bool → List Nat → R (Option (List N
 /-- White space/comments then a mandatory `.` (after the graph label; in N-Triples after the object). -/
 def expectDot (T : Tables) (e : End) : Bool → List Nat → R Unit
   | _, [] => .err e.cls
-  | true, c :: rest => if c = 0x0a then expectDot T e false rest else expectDot T e true rest
+  | true, c :: rest => if c = 0x0a ∨ c = 0x0d then expectDot T e false rest else expectDot T e true rest
   | false, c :: rest =>
     if c = 0x2e then .ok () rest
     else if c = 0x23 then expectDot T e true rest
@@ -352,7 +352,7 @@ inductive EolRes where
 
 def toEOL (T : Tables) (e : End) : Bool → List Nat → EolRes
   | _, [] => (match e with | .eof => .done | .ioerr => .fail .io)
-  | true, c :: rest => if c = 0x0a then .start rest else toEOL T e true rest
+  | true, c :: rest => if c = 0x0a ∨ c = 0x0d then .start rest else toEOL T e true rest
   | false, c :: rest =>
     if c = 0x23 then toEOL T e true rest
     else if c = 0x0d ∨ c = 0x0a then .start rest
@@ -363,7 +363,7 @@ def toEOL (T : Tables) (e : End) : Bool → List Nat → EolRes
     (the only place where an end of input is a clean end of the document). -/
 def skipToStmt (T : Tables) : Bool → List Nat → Option (List Nat)
   | _, [] => none
-  | true, c :: rest => if c = 0x0a then skipToStmt T false rest else skipToStmt T true rest
+  | true, c :: rest => if c = 0x0a ∨ c = 0x0d then skipToStmt T false rest else skipToStmt T true rest
   | false, c :: rest =>
     if c = 0x23 then skipToStmt T true rest
     else if isSpace T c then skipToStmt T false rest
